@@ -87,6 +87,9 @@ struct Sys {
     /// lazy mode: every thread obtains its own handle from the vector inside the thread
     lazy: Option<VecK>,
     mine: Vec<std::sync::Arc<std::sync::Mutex<Option<Ctr>>>>,
+    /// the label value of the vector child, and whether odd-numbered threads ask for it through the map form (`with`)
+    label: &'static str,
+    mixed_forms: bool,
     /// float counters only: every amount is multiplied by this power of two (1 = off). Tiny (subnormal, below f64::EPSILON)
     /// and huge amounts stay exactly representable, so the same bit-set oracle applies; reads are divided by it again
     scale: f64,
@@ -120,9 +123,13 @@ impl Sys {
             Some(v) => {
                 let mut g = self.mine[thread].lock().unwrap();
                 if g.is_none() {
+                    let by_map = self.mixed_forms && thread % 2 == 1;
+                    let map: std::collections::HashMap<&str, &str> = [("l", self.label)].into_iter().collect();
                     *g = Some(match v {
-                        VecK::F(v) => Ctr::F(v.with_label_values(&["x"])),
-                        VecK::I(v) => Ctr::I(v.with_label_values(&["x"])),
+                        VecK::F(v) if by_map => Ctr::F(v.with(&map)),
+                        VecK::I(v) if by_map => Ctr::I(v.with(&map)),
+                        VecK::F(v) => Ctr::F(v.with_label_values(&[self.label])),
+                        VecK::I(v) => Ctr::I(v.with_label_values(&[self.label])),
                     });
                 }
                 g.clone().unwrap()
@@ -207,7 +214,7 @@ impl Property for C01 {
         "C01"
     }
     fn rule(&self) -> &'static str {
-        "case = one shared Counter or IntCounter (standalone and registered, standalone as ONE unregistered handle shared by reference, or a CounterVec/IntCounterVec child), 2-3 threads x 1-5 \
+        "case = one shared Counter or IntCounter (standalone and registered, standalone as ONE unregistered handle shared by reference, or a CounterVec/IntCounterVec child - three in seven with a non-ASCII label value, half of them requested by odd-numbered threads through with(map) and by the others through with_label_values), 2-3 threads x 1-5 \
          operations from inc_by(2^i) with a unique bit per increment, inc(), get, Collector::collect, Registry::gather, a local \
          counter batch followed by flush (float counters, 15%: all amounts scaled by 2^-1074 / 2^-1060 / 2^-80 / 2^-30 / 2^900), \
          persistent local handles (35% of programs: inc_by on the handle, flush, clone of the handle \
@@ -246,37 +253,45 @@ impl Property for C01 {
         // no clone of it exists anywhere (gather is replaced by collect on the handle itself)
         let single_handle = !as_child && src.chance(85);
         let sys = match (float, as_child) {
-            (true, false) if single_handle => Sys { c: Ctr::F(Counter::new("c", "h").unwrap()), lazy: None, mine: vec![], scale: 1.0, locals: Default::default(), coll: None, reg },
-            (false, false) if single_handle => Sys { c: Ctr::I(IntCounter::new("c", "h").unwrap()), lazy: None, mine: vec![], scale: 1.0, locals: Default::default(), coll: None, reg },
+            (true, false) if single_handle => Sys { c: Ctr::F(Counter::new("c", "h").unwrap()), lazy: None, mine: vec![], label: "x", mixed_forms: false, scale: 1.0, locals: Default::default(), coll: None, reg },
+            (false, false) if single_handle => Sys { c: Ctr::I(IntCounter::new("c", "h").unwrap()), lazy: None, mine: vec![], label: "x", mixed_forms: false, scale: 1.0, locals: Default::default(), coll: None, reg },
             (true, false) => {
                 let c = Counter::new("c", "h").unwrap();
                 reg.register(Box::new(c.clone())).unwrap();
-                Sys { c: Ctr::F(c.clone()), lazy: None, mine: vec![], scale: 1.0, locals: Default::default(), coll: Some(std::sync::Arc::new(c)), reg }
+                Sys { c: Ctr::F(c.clone()), lazy: None, mine: vec![], label: "x", mixed_forms: false, scale: 1.0, locals: Default::default(), coll: Some(std::sync::Arc::new(c)), reg }
             }
             (false, false) => {
                 let c = IntCounter::new("c", "h").unwrap();
                 reg.register(Box::new(c.clone())).unwrap();
-                Sys { c: Ctr::I(c.clone()), lazy: None, mine: vec![], scale: 1.0, locals: Default::default(), coll: Some(std::sync::Arc::new(c)), reg }
+                Sys { c: Ctr::I(c.clone()), lazy: None, mine: vec![], label: "x", mixed_forms: false, scale: 1.0, locals: Default::default(), coll: Some(std::sync::Arc::new(c)), reg }
             }
             (true, true) => {
                 let v = CounterVec::new(Opts::new("c", "h"), &["l"]).unwrap();
                 reg.register(Box::new(v.clone())).unwrap();
                 // placeholder handle; replaced after the run in lazy mode
-                Sys { c: Ctr::F(Counter::new("placeholder", "h").unwrap()), lazy: Some(VecK::F(v.clone())), mine: vec![], scale: 1.0, locals: Default::default(), coll: Some(std::sync::Arc::new(v)), reg }
+                Sys { c: Ctr::F(Counter::new("placeholder", "h").unwrap()), lazy: Some(VecK::F(v.clone())), mine: vec![], label: "x", mixed_forms: false, scale: 1.0, locals: Default::default(), coll: Some(std::sync::Arc::new(v)), reg }
             }
             (false, true) => {
                 let v = IntCounterVec::new(Opts::new("c", "h"), &["l"]).unwrap();
                 reg.register(Box::new(v.clone())).unwrap();
-                Sys { c: Ctr::I(IntCounter::new("placeholder", "h").unwrap()), lazy: Some(VecK::I(v.clone())), mine: vec![], scale: 1.0, locals: Default::default(), coll: Some(std::sync::Arc::new(v)), reg }
+                Sys { c: Ctr::I(IntCounter::new("placeholder", "h").unwrap()), lazy: Some(VecK::I(v.clone())), mine: vec![], label: "x", mixed_forms: false, scale: 1.0, locals: Default::default(), coll: Some(std::sync::Arc::new(v)), reg }
             }
         };
         let mut sys = sys;
         let lazy_first_touch = as_child && src.chance(150);
+        if as_child {
+            // the child's label value (a third: not ASCII), and whether the threads ask for the child in both forms
+            sys.label = ["x", "x", "x", "x", "é", "日本", "ÿ\u{0}"][src.below(7)];
+            sys.mixed_forms = src.chance(128);
+            if sys.label != "x" {
+                rep.class("vector-child-with-non-ascii-label-value");
+            }
+        }
         if as_child && !lazy_first_touch {
             // the child exists before the threads start and all share one handle
             sys.c = match sys.lazy.take().unwrap() {
-                VecK::F(v) => Ctr::F(v.with_label_values(&["x"])),
-                VecK::I(v) => Ctr::I(v.with_label_values(&["x"])),
+                VecK::F(v) => Ctr::F(v.with_label_values(&[sys.label])),
+                VecK::I(v) => Ctr::I(v.with_label_values(&[sys.label])),
             };
         }
         let with_reset = src.chance(48);
